@@ -610,6 +610,26 @@ def sequence_set_to_list(
 
 ####################################################################
 #
+def one_line(text: str) -> str:
+    """Make a text safe for the human readable part of a status response.
+
+    The text of a tagged or untagged status response ends at the first CRLF.
+    Error messages quote what the client sent (mailbox names, parts of the
+    command) which may contain line breaks and control characters when it was
+    sent as a literal.
+
+    Args:
+        text: The text to send.
+
+    Returns:
+        The text with every run of CR, LF and other control characters
+        replaced by a single space.
+    """
+    return re.sub(r"[\x00-\x1f\x7f]+", " ", text)
+
+
+####################################################################
+#
 def quoted(value: str) -> str:
     """Format a string as an IMAP quoted string.
 
